@@ -97,11 +97,24 @@ def weightOf (weights : List (Nat × Rat)) (t : Nat) : Rat :=
   | none => 0
 
 def maskedPred (preds : List Rat) (weights : List (Nat × Rat)) (t : Nat) : Rat :=
-  if weightOf weights t = 0 then 0 else preds.getD t 0
+  EgPredict.egColumn (weightOf weights t) (preds.getD t 0)
 
-/-- classification: `pred[weights_.index].dot(weights_)` — aligned by predictor id -/
+/-- classification: `pred[weights_.index].dot(weights_)` — aligned by predictor id when the lifted `EgPredict.dotById`
+    says so (the source's expression selects the columns by `weights_.index`), otherwise column `i` of `pred` (predictor
+    id `i`) is multiplied with the `i`-th VALUE of `weights_` -/
 def egPositive (preds : List Rat) (weights : List (Nat × Rat)) : Rat :=
-  (weights.map (fun e => maskedPred preds weights e.1 * e.2)).sum
+  if EgPredict.dotById then (weights.map (fun e => maskedPred preds weights e.1 * e.2)).sum
+  else (List.zipWith (fun t (e : Nat × Rat) => maskedPred preds weights t * e.2) (List.range preds.length) weights).sum
+
+/-- the row `_pmf_predict` reports: `np.concatenate((1 - positive_probs, positive_probs), axis=1)` (lifted columns) -/
+def egPmfRow (preds : List Rat) (weights : List (Nat × Rat)) : Rat × Rat :=
+  (EgPredict.col0 (egPositive preds weights), EgPredict.col1 (egPositive preds weights))
+
+/-- `predict` (classification) for one row and its uniform draw `u`: the lifted column choice `[:, k]`, the lifted
+    comparison and the lifted `* n` -/
+def egLabel (preds : List Rat) (weights : List (Nat × Rat)) (u : Rat) : Nat :=
+  if EgPredict.drawsOne (EgPredict.positiveCol (egPmfRow preds weights).1 (egPmfRow preds weights).2) u
+  then EgPredict.labelScale else 0
 
 /-- `RandomState.choice(values, p=probs)` for one draw `u`:
     `cdf = cumsum(p); idx = cdf.searchsorted(u, side="right")` = number of cdf entries `≤ u`. -/
@@ -176,6 +189,8 @@ def fmtOptRat : Option Rat → String
   `pmf.hyp <eps> <dict…>`                    "<all rules valid> <all operations '>'>"
   `pmf.bern <p> <u>`                         0/1 per row
   `pmf.eg <pred matrix rows=query rows> <ids> <weights>`   positive probability per row
+  `pmf.eg.rows <pred matrix> <ids> <weights>`              the two reported columns `<col 0> <col 1>`
+  `pmf.eg.labels <pred matrix> <ids> <weights> <u>`        `predict` labels of ExponentiatedGradient for the draws u
   `pmf.egreg.code <pred matrix> <ids> <weights> <u>`       value per row, pairing as in the source under test
   `pmf.egreg <pred matrix> <ids> <weights> <u>`            value per row, positional pairing
   `pmf.egreg.byid <pred matrix> <ids> <weights> <u>`       value per row, aligned by id
@@ -201,6 +216,16 @@ def handle (toks : List String) : Option String :=
     let m ← Proto.parseMat m
     let w ← mkWeights (← Proto.parseNats ids) (← Proto.parseRats ws)
     pure (Proto.fmtRats (m.map (fun preds => egPositive preds w)))
+  | ["pmf.eg.rows", m, ids, ws] => do
+    let m ← Proto.parseMat m
+    let w ← mkWeights (← Proto.parseNats ids) (← Proto.parseRats ws)
+    pure (Proto.fmtRats (m.map (fun preds => (egPmfRow preds w).1)) ++ " " ++ Proto.fmtRats (m.map (fun preds => (egPmfRow preds w).2)))
+  | ["pmf.eg.labels", m, ids, ws, us] => do
+    let m ← Proto.parseMat m
+    let w ← mkWeights (← Proto.parseNats ids) (← Proto.parseRats ws)
+    let us ← Proto.parseRats us
+    if us.length ≠ m.length then none
+    else pure (Proto.fmtNats ((m.zip us).map (fun x => egLabel x.1 w x.2)))
   | ["pmf.egreg", m, ids, ws, us] => do
     let m ← Proto.parseMat m
     let w ← mkWeights (← Proto.parseNats ids) (← Proto.parseRats ws)
